@@ -282,6 +282,8 @@ def r6_stack_axis_provenance(ctx):
             continue
         ax = v.kw("axis", v.args[1] if len(v.args) > 1 else None)
         arr = v.args[0] if v.args else None
+        while isinstance(arr, App) and arr.fname in ("list", "tuple", "builtins.list", "builtins.tuple") and len(arr.args) == 1:
+            arr = arr.args[0]  # a list / tuple made of the broadcast result holds the same arrays in the same order
         if not (isinstance(arr, App) and "broadcast_arrays" in arr.fname):
             ctx.violation("C15.R6", fi.qual, loc(fi), "inputs broadcast before stacking", f"the library's stack receives {vkey(arr)[:100]} instead of the broadcast inputs")
         elif vkey(ax) != "axis" and ("args[" in vkey(ax) or "axis" not in vkey(ax)):
